@@ -107,6 +107,7 @@ func cmdCheck(args []string) int {
 	noEvidence := fs.Bool("no-evidence", false, "do not write evidence (scratch runs)")
 	verbose := fs.Bool("v", false, "verbose")
 	strict := fs.Bool("strict", false, "treat every generated obligation as claimed (ignore the ledger)")
+	noBounded := fs.Bool("no-bounded", false, "skip the bounded stand-ins (ledger maintenance runs)")
 	fs.Parse(args)
 	if *prop == "" {
 		fmt.Fprintln(os.Stderr, "check: --prop required")
@@ -294,7 +295,8 @@ func cmdCheck(args []string) int {
 			if co.r.Verdict != "unsat" || co.o.Negate {
 				continue
 			}
-			for _, d := range co.o.Deps {
+			for _, dep := range co.o.Deps {
+				d := dep.ID
 				if v, ok := verdictOf[d]; ok && v != "unsat" {
 					co.r.Verdict = "assumes-undischarged:" + d
 					verdictOf[co.o.ID] = co.r.Verdict
@@ -417,8 +419,8 @@ func cmdCheck(args []string) int {
 				if !robust[co.o.ID] {
 					continue
 				}
-				for _, d := range co.o.Deps {
-					if !robust[d] {
+				for _, dep := range co.o.Deps {
+					if d := dep.ID; d != "" && !robust[d] {
 						delete(robust, co.o.ID)
 						changed = true
 						break
@@ -486,7 +488,7 @@ func cmdCheck(args []string) int {
 	}
 	// bounded stand-ins registered for this property (separate block, never counted as discharged)
 	var bounded *boundedOutcome
-	if len(idx.Props[*prop]) > 0 {
+	if len(idx.Props[*prop]) > 0 && !*noBounded {
 		knownB := map[string]Finding{}
 		for k, v := range known {
 			knownB[k] = v
